@@ -293,6 +293,18 @@ def evaluate(interp, node, frame):
             text = getattr(pos[0], "value", "")
             return 8 if "d" in str(text).lower() else 4
         return 4
+    if name in ("HUGE", "TINY", "EPSILON"):
+        from psyclone.psyir.symbols import ScalarType
+        try:
+            is_int = pos[0].datatype.intrinsic == ScalarType.Intrinsic.INTEGER
+        except Exception:  # pylint: disable=broad-except
+            is_int = False
+        if name == "HUGE":
+            return 2 ** 31 - 1 if is_int else \
+                (2 - Fraction(1, 2 ** 23)) * Fraction(2) ** 127
+        if is_int:
+            raise UB("type", f"{name} of integer")
+        return Fraction(1, 2 ** 126) if name == "TINY" else Fraction(1, 2 ** 23)
     if name == "PRESENT":
         sym = pos[0].symbol
         return id(sym) in frame.store
